@@ -47,6 +47,10 @@ pub struct Case {
     pub lm: bool,
     pub no_strip: bool,
     pub legacy_meta_keys: bool,
+    /// how valid RED1/RED2 metadata are written: 0 `a, b, c`; 1 `(a, b, c)`; 2 `{ ren: a, nren: b, co2: c }`;
+    /// 3 the keyed form in another order (the three documented forms)
+    #[serde(default)]
+    pub red_form: u8,
 }
 
 const BUILDINGS: [&str; 3] = [
@@ -106,10 +110,16 @@ fn red_opt_args(flag: &str, r: &Red, args: &mut Vec<String>) {
     }
 }
 
-fn red_meta_text(r: &Red) -> Option<String> {
+fn red_meta_text(r: &Red, form: u8) -> Option<String> {
+    let m = |x: u32| format!("{}.{:03}", x / 1000, x % 1000);
     match r {
         Red::Absent => None,
-        Red::Valid(t) => Some(format!("{}.{:03}, {}.{:03}, {}.{:03}", t[0] / 1000, t[0] % 1000, t[1] / 1000, t[1] % 1000, t[2] / 1000, t[2] % 1000)),
+        Red::Valid(t) => Some(match form % 4 {
+            0 => format!("{}, {}, {}", m(t[0]), m(t[1]), m(t[2])),
+            1 => format!("({}, {}, {})", m(t[0]), m(t[1]), m(t[2])),
+            2 => format!("{{ ren: {}, nren: {}, co2: {} }}", m(t[0]), m(t[1]), m(t[2])),
+            _ => format!("{{co2: {}, ren: {} , nren:{}}}", m(t[2]), m(t[0]), m(t[1])),
+        }),
         Red::Invalid(s) => Some(s.clone()),
     }
 }
@@ -133,10 +143,10 @@ pub fn components_text(c: &Case) -> String {
     if let V::Valid(v) | V::Invalid(v) = &c.loc_meta {
         s.push_str(&format!("#META {}: {}\n", kl, v));
     }
-    if let Some(t) = red_meta_text(&c.red1_meta) {
+    if let Some(t) = red_meta_text(&c.red1_meta, c.red_form) {
         s.push_str(&format!("#META CTE_RED1: {}\n", t));
     }
-    if let Some(t) = red_meta_text(&c.red2_meta) {
+    if let Some(t) = red_meta_text(&c.red2_meta, c.red_form >> 2) {
         s.push_str(&format!("#META CTE_RED2: {}\n", t));
     }
     s.push_str(BUILDINGS[c.bidx % BUILDINGS.len()]);
@@ -339,11 +349,11 @@ impl Prop for C19 {
                 loc_v(vec!["MADRID", "peninsula", ""]),
             ),
             (red_v(), red_v(), red_v(), red_v()),
-            (proptest::option::weighted(0.25, 0usize..2), 0usize..3, any::<bool>(), prop::bool::weighted(0.2), prop::bool::weighted(0.15)),
+            (proptest::option::weighted(0.25, 0usize..2), 0usize..3, any::<bool>(), prop::bool::weighted(0.2), prop::bool::weighted(0.15), prop_oneof![3 => Just(0u8), 2 => 0u8..16]),
         )
-            .prop_map(|((area_opt, area_meta, k_opt, k_meta, loc_opt, loc_meta), (red1_opt, red1_meta, red2_opt, red2_meta), (ffile, bidx, lm, no_strip, legacy_meta_keys))| {
+            .prop_map(|((area_opt, area_meta, k_opt, k_meta, loc_opt, loc_meta), (red1_opt, red1_meta, red2_opt, red2_meta), (ffile, bidx, lm, no_strip, legacy_meta_keys, red_form))| {
                 // an empty location metadata value cannot be written as `#META key:` + nothing on a legacy key: keep as is
-                Case { area_opt, area_meta, k_opt, k_meta, loc_opt, loc_meta, red1_opt, red1_meta, red2_opt, red2_meta, ffile, bidx, lm, no_strip, legacy_meta_keys }
+                Case { area_opt, area_meta, k_opt, k_meta, loc_opt, loc_meta, red1_opt, red1_meta, red2_opt, red2_meta, ffile, bidx, lm, no_strip, legacy_meta_keys, red_form }
             })
             .boxed()
     }
